@@ -29,7 +29,7 @@ func init() { core.Register(c20{}) }
 func (c20) ID() string    { return "C20" }
 func (c20) Level() string { return "exploration" }
 func (c20) Rule() string {
-	return "(a) race detector: a -race build of the harness runs real starts and shutdowns: seeded graphs with a harness scanner that fails for >= 2 components whose failing goroutines are gated to overlap (plus non-failing, yielding scanner calls), scanners and closers that log, closers failing concurrently behind gates, with the quiet logger and with the repository's own logger; every 'WARNING: DATA RACE' block in the GORACE log is parsed, reports are de-duplicated by the pair of top-most go-kid/ioc frames; any report with a go-kid/ioc frame is a violation (a report without one is a harness bug and makes the run inconclusive). (b) linearizability: concurrent histories of sync2.Map {Load, Store, LoadOrStore, LoadOrStoreFn (the supplied function yields), Delete, Range} and of list.NewConcurrentSets / list.NewGenericConcurrentSets {Put, Exists, Remove, ToArray} from 2..8 goroutines x 4..10 operations over 1..3 keys with unique written values, recorded at the client boundary with one shared atomic counter as clock (call before invoking, return after the reply) and checked by porcupine v1.3.0 against a per-key sequential model (partitioned by key; Range / ToArray contribute one read per key of the universe over the enclosing interval, which is all sync.Map promises); additionally the direct invariant that among concurrent LoadOrStore / LoadOrStoreFn callers on a fresh key exactly one is told loaded=false. non-trivial = history with >= 2 operations on one key that overlap in time; distinct = history signature (ops + interleaving of call/return stamps); race build additionally: scanner invocations for healthy components held in flight while others fail (App.Run must not return before they have), and sync2.Map with three-word values (every value read was stored by somebody); race build also: concurrent GetMetaOrRegister on the real definition registry; histories whose operations never return are reported (stall detection in scheduler yields and seconds); race build: every second shutdown without gates (gates add happens-before edges that can hide races); registryRace (concurrent get-or-register of shared fresh names: one definition per name, complete when handed out) in both builds; bareFactory (factory.Default + SetRegistry + PrepareComponents without an application: every scanned component has its definition) in both builds; race workers with a two-prefix logger"
+	return "(a) race detector: a -race build of the harness runs real starts and shutdowns: seeded graphs with a harness scanner that fails for >= 2 components whose failing goroutines are gated to overlap (plus non-failing, yielding scanner calls), scanners and closers that log, closers failing concurrently behind gates, with the quiet logger and with the repository's own logger; every 'WARNING: DATA RACE' block in the GORACE log is parsed, reports are de-duplicated by the pair of top-most go-kid/ioc frames; any report with a go-kid/ioc frame is a violation (a report without one is a harness bug and makes the run inconclusive). (b) linearizability: concurrent histories of sync2.Map {Load, Store, LoadOrStore, LoadOrStoreFn (the supplied function yields), Delete, Range} and of list.NewConcurrentSets / list.NewGenericConcurrentSets {Put, Exists, Remove, ToArray} from 2..8 goroutines x 4..10 operations over 1..3 keys with unique written values, recorded at the client boundary with one shared atomic counter as clock (call before invoking, return after the reply) and checked by porcupine v1.3.0 against a per-key sequential model (partitioned by key; Range / ToArray contribute one read per key of the universe over the enclosing interval, which is all sync.Map promises); additionally the direct invariant that among concurrent LoadOrStore / LoadOrStoreFn callers on a fresh key exactly one is told loaded=false. non-trivial = history with >= 2 operations on one key that overlap in time; distinct = history signature (ops + interleaving of call/return stamps); race build additionally: scanner invocations for healthy components held in flight while others fail (App.Run must not return before they have), and sync2.Map with three-word values (every value read was stored by somebody); race build also: concurrent GetMetaOrRegister on the real definition registry; histories whose operations never return are reported (stall detection in scheduler yields and seconds); race build: every second shutdown without gates (gates add happens-before edges that can hide races); registryRace (concurrent get-or-register of shared fresh names: one definition per name, complete when handed out) in both builds; bareFactory (factory.Default + SetRegistry + PrepareComponents without an application: every scanned component has its definition) in both builds; race workers with a two-prefix logger; manyScanFailures (a scanner rejecting every component of a 20..60 component application, race build)"
 }
 func (c20) Assumptions() []string {
 	return []string{
